@@ -300,7 +300,19 @@ def parsed_case(rng, i):
         owner = (mod, r)
     else:
         src = g.routine(with_type=True)
+        if i % 2 == 0:
+            # make sure both substituted symbols meet inside single expressions
+            src = src.replace('end subroutine kernel', '  t = s * u + s\n  a(i) = b(i, j) * s + c(j) * u + s\nend subroutine kernel')
         r = Subroutine.from_source(src, frontend=FP)
+        if i % 2 == 0:
+            # expression DAGs: two symbols mapped to the SAME replacement object (SubstituteExpressions takes it as-is
+            # from the map), so one python object sits at several positions of one expression
+            from loki.ir import SubstituteExpressions
+            from loki.expression import parse_expr
+            shared = parse_expr(rng.choice(['(b(j, 1) + n)', 'max(c(j), 1.0_jprb)', 'p%x', 'a(k(1))']), scope=r)
+            vmap = r.variable_map
+            r.body = SubstituteExpressions({vmap['s']: shared, vmap['u']: shared}).visit(r.body)
+            g.features.add('shared_substituted_object')
         objs = (r.spec, r.body) if i % 3 else (r.body,)
         owner = (r,)
     # (symbols reference their scope weakly: the program units must stay alive while the finders run)
@@ -318,7 +330,30 @@ def built_case(rng, i):
     body = T.random_forest(rng, rng.randint(2, 9), 4, ('leaf', 'asg', 'loop', 'sec', 'assoc', 'cond', 'multi', 'tdef'), tag, pool, dup_p=0.0)
     bld = T.Builder()
     root = bld.build(T.node('sec', 'root', [body]))
+    if i % 3 != 2:
+        root = root._rebuild(body=root.body + _shared_object_statements(rng))  # pylint: disable=protected-access
     return root, (root,) if i % 2 else tuple(root.body)
+
+
+def _shared_object_statements(rng):
+    """Statements whose expressions contain the same python expression object at several positions
+    (programmatically built IR re-using symbol objects)."""
+    from loki import ir
+    from loki.expression import symbols as sym
+    i = sym.Variable(name='i')
+    j = sym.Variable(name='j')
+    a = sym.Array(name='a', dimensions=(i, i))                     # i twice inside a(i, i)
+    call = sym.InlineCall(sym.ProcedureSymbol('f', scope=None), parameters=(i, sym.IntLiteral(2)))
+    lit = sym.FloatLiteral('1.5')
+    x = sym.Variable(name='x')
+    stmts = [
+        ir.Assignment(lhs=x, rhs=sym.Sum((a, sym.Product((a, i))))),                         # a(i,i) + a(i,i)*i
+        ir.Assignment(lhs=x, rhs=sym.Sum((call, call))),                                     # f(i,2) + f(i,2)
+        ir.Assignment(lhs=sym.Array(name='b', dimensions=(j,)), rhs=sym.Product((lit, sym.Sum((lit, j, j))))),
+        ir.Conditional(condition=sym.Comparison(call, '>', call), body=(ir.Assignment(lhs=x, rhs=sym.Sum((x, x))),), else_body=()),
+        ir.CallStatement(name=sym.ProcedureSymbol('sub', scope=None), arguments=(a, a, sym.Sum((i, i))), kwarguments=(('k', call),)),
+    ]
+    return tuple(rng.sample(stmts, rng.randint(2, len(stmts))))
 
 
 # --------------------------------------------------------------------------------------------
@@ -398,7 +433,8 @@ def run(ctx):
         'unique mode: one representative per documented key (name, parent name, dimensions | printed form), names folded',
         'FindScopes on a TypeDef object itself is exempt (inherits the FindNodes handler); FindTypedSymbols/FindExpressions are '
         'not judged (they expose internal wrapper symbols)',
-        'generated sources are lower-case; node objects occur once per tree',
+        'generated sources are lower-case; node objects occur once per tree; expression OBJECTS may occur at several positions '
+        '(substituted DAGs, programmatically re-used symbols): occurrences are counted by position',
     ]
 
 
